@@ -261,7 +261,7 @@ def run_D(case):
         naive = pd.date_range(f0, periods=ndays, freq="D")
         idx = naive.tz_localize(zone, ambiguous=True, nonexistent="shift_forward")
         pos = int(np.flatnonzero(naive == day)[0])
-        for defect in ("none", "Tnan_on", "Tnan_after", "Unan_on", "Tinf_before"):
+        for defect in ("none", "Tnan_on", "Tnan_after", "Unan_on", "Tinf_before", "Tnan_first2", "Tnan_last2", "Tnan_ends"):
             for usage in (True, False):
                 if defect == "Unan_on" and not usage:
                     continue
@@ -274,6 +274,11 @@ def run_D(case):
                     T[min(pos + 1, ndays - 1)] = np.nan
                 if defect == "Unan_on":
                     y[pos] = np.nan
+                # weather that starts later / ends earlier than the frame: the rows stay, without a prediction
+                if defect in ("Tnan_first2", "Tnan_ends"):
+                    T[:2] = np.nan
+                if defect in ("Tnan_last2", "Tnan_ends"):
+                    T[-2:] = np.nan
                 if defect == "Tinf_before":
                     T[max(pos - 1, 0)] = np.inf   # a non-finite (not missing) temperature: the row stays, without a prediction
                 try:
@@ -407,7 +412,7 @@ def run(tier, seed):
         rule="H: one case = (zone signature class, UTC-offset transition); frames of 3 and 2 local days with the transition day in the "
         "middle / first / last, with and without usage, through HourlyReportingData and HourlyModel.predict, plus the slot-level check; "
         "D: one case = (zone class, transition of the chosen years): 10 daily rows / 70 days of billing reads around it x "
-        "{no defect, NaN temperature on / after the transition day, NaN usage} x usage present/absent; L: one case = (zone, span of 230-730 "
+        "{no defect, NaN temperature on / after the transition day, on the first / last two days of the frame, NaN usage} x usage present/absent; L: one case = (zone, span of 230-730 "
         "days holding two to four clock changes in either order): hourly predict with/without usage, daily predict with a season-split "
         "and a day-type-split model over the span and over 40 days inside one season",
     )
